@@ -57,7 +57,7 @@ $BODY
 //@   sig <<<
         ensures last_op_at(*old(ops), *final(ops), Op::Div, def.pos)
 //@   >>>
-//@   mutant div_op_at_left_operand_position "ops.push(Op::Div, def.pos);" => "ops.push(Op::Div, def.left.pos().clone());" expect bin_div_arm
+//@   mutant div_op_at_last_operand_op_position "ops.push(Op::Div, def.pos);" => "ops.push(Op::Div, ops.pos[ops.pos.len() - 1].clone());" expect bin_div_arm
 //@ end
 //@ extract src/build/opcode/translate.rs :: impl AST :: fn translate_expr :: arm "BinaryExprType::Mul =>"
 //@   wrap <<<
@@ -172,7 +172,7 @@ $BODY
                n >= 3 && final(ops).ops@[n - 2] == Op::Add && final(ops).pos@[n - 2] == def.pos
                && final(ops).ops@[n - 3] is Val && final(ops).pos@[n - 3] == expr_pos(*def.message) }),
 //@   >>>
-//@   mutant fail_reported_at_message_operand_only "ops.push(Op::Add, def.pos.clone());" => "ops.push(Op::Add, msg_pos.clone());" expect fail_arm
+//@   mutant fail_add_at_message_position "ops.push(Op::Val(Primitive::Str(\"UserDefined: \".into())), msg_pos); ops.push(Op::Add, def.pos.clone());" => "ops.push(Op::Val(Primitive::Str(\"UserDefined: \".into())), msg_pos.clone()); ops.push(Op::Add, msg_pos);" expect fail_arm
 //@ end
 //@ extract src/build/opcode/translate.rs :: impl AST :: fn translate_value
 //@   no_impl
